@@ -323,9 +323,18 @@ def run_one(cfg):
         cur2.caller.append(('u0', u0, snap(u0)))
         cur2.caller.append(('uend_of_run1_passed_as_u0', uend, snap(uend)))
         CUR = cur2
-        uend2, stats2 = ctrl.run(uend, T1, T1 + cfg['P'] * dt)
+        uend2, stats2 = ctrl.run(uend, T1, T1 + 2 * cfg['P'] * dt)
         cur2.check('after run 2', 'return')
         _final(cur2, stats2, res, 'run2')
+        # what the first run logged and returned is still in the caller's hands: the second run (two more blocks on the
+        # same controller, state of sweepers and hooks carried over) may not have changed it
+        nbad, ncb = len(cur.corrupt), len(cur.caller_bad)
+        cur.caller.append(('value_returned_by_run1', uend, cur2.caller[1][2]))
+        cur.check('after run 2 (entries logged by run 1)', 'return')
+        if len(cur.corrupt) > nbad or len(cur.caller_bad) > ncb:
+            late = Cur(cfg)
+            late.corrupt, late.caller_bad, late.order = cur.corrupt[nbad:], cur.caller_bad[ncb:], cur.order
+            _final(late, {}, res, 'run1, seen after run2')
         res['logged'] = n1 + len(cur2.order)
         res['steps_after_first_log'] = cur.steps_after_first_log + cur2.steps_after_first_log
         res['events'] = cur.events + cur2.events
